@@ -24,6 +24,9 @@ static int cut_hit;
 #endif
 /* hook (KJN_LBZIP2_VERIF): execution is cut when a table is complete / the header stage is left */
 #define VERIF_POINT(id, arg) verif_point_##id(arg)
+#define verif_point_SELECTOR(j) ((void)0)
+#define verif_point_SYMBOL_FAST(x) ((void)0)
+#define verif_point_SYMBOL_SLOW(x) ((void)0)
 struct retriever_internal_state;
 static void verif_point_DELTA_DONE(struct retriever_internal_state *rs) { (void)rs; CUT(); }
 static void verif_point_HEADER_DONE(struct retriever_internal_state *rs) { (void)rs; CUT(); }
